@@ -780,6 +780,10 @@ protected:
    format_cont_t                   mFormats;
    /// Pointer to the object that manages the cardinality check.
    std::unique_ptr< ICardinality>  mpCardinality;
+   /// Set by assignValue() for the duration of assign(): the values (of a
+   /// list) do not count against the cardinality because they were not given
+   /// on the command line.
+   bool                            mIgnoreCardinality = false;
    /// Stores the constraints defined for this argument.
    std::vector< IArgConstraint*>   mConstraints;
    /// Pointer to the constraint container in the argument handler, Needed to
